@@ -122,6 +122,17 @@ def run(ck: Check):
                         "faults": {"apis": [], "plan": {}}, "max_vtime": 900.0, "_cond": "healthy", "_group": False,
                         "_t_stop": 0.0})
             k += 1
+    # a group consumer whose application stopped polling for longer than max_poll_interval_ms: the heartbeat task leaves
+    # the group on its behalf (slow LeaveGroup round trip); stop() is called at a grid of instants around that
+    for j, idle in enumerate([0.3, 0.5, 0.6, 0.7, 0.8, 0.9, 1.0, 1.1, 1.3, 1.6]):
+        for ac in (False, True):
+            c0 = {"name": "c0", "group": "g", "topics": ["t0"], "assignors": ["range"], "auto_commit": ac,
+                  "auto_commit_interval_ms": 300, "cb_delay": 0, "max_poll_interval_ms": 400, "heartbeat_interval_ms": 200,
+                  "program": [["start"], ["consume", 0.3, 0.1, None, 0], ["sleep", idle], ["stop", 600.0, True]]}
+            scs.append({"id": f"idle-leave-{j}-{int(ac)}", "seed": 90 + j, "brokers": 1, "topics": {"t0": 2},
+                        "preload": {"t0": {"0": 3, "1": 0}}, "consumers": [c0], "cluster_events": [], "coordinator": 0,
+                        "api_latency": {"LeaveGroup": 0.5}, "faults": {"apis": [], "plan": {}}, "max_vtime": 900.0,
+                        "_cond": "idle-leave", "_group": True, "_t_stop": 0.3 + idle})
     rng_old = random.Random(ck.seed * 7121 + 1919)
     for i in range(ck.n(18, 200)):
         sc = conssim.old_broker(gen_consumer(rng_old, 700000 + i), rng_old)
